@@ -22,9 +22,9 @@ func init() {
 
 var profiles = map[string]vh.GenProfile{
 	"C01": {MinOps: 5, MaxOps: 14, MaxNodes: 2, MaxSess: 3, Negative: 2, Reports: 2, RuleChurn: 8, Reassoc: 2, Takeover: true, LateAnswers: true},
-	"C04": {MinOps: 10, MaxOps: 40, MaxNodes: 3, MaxSess: 12, Negative: 8, Reports: 3, RuleChurn: 3, Reassoc: 3, SeidClasses: true, Takeover: true, TxTimeouts: true, LateAnswers: true},
+	"C04": {MinOps: 10, MaxOps: 40, MaxNodes: 3, MaxSess: 12, Negative: 8, Reports: 3, RuleChurn: 3, Reassoc: 3, SeidClasses: true, Takeover: true, TxTimeouts: true, LateAnswers: true, Churn: true},
 	"C05": {MinOps: 10, MaxOps: 35, MaxNodes: 3, MaxSess: 8, Negative: 3, Reports: 4, RuleChurn: 8, Reassoc: 3, ExtraSock: true, Takeover: true, Dups: 2, DLDR: true, TxTimeouts: true, LateAnswers: true},
-	"C08": {MinOps: 8, MaxOps: 30, MaxNodes: 3, MaxSess: 6, Negative: 10, Reports: 2, RuleChurn: 4, Reassoc: 2, ExtraSock: true, Takeover: true, Dups: 5},
+	"C08": {MinOps: 8, MaxOps: 30, MaxNodes: 3, MaxSess: 6, Negative: 10, Reports: 2, RuleChurn: 4, Reassoc: 2, ExtraSock: true, Takeover: true, Dups: 5, Churn: true},
 	"C11": {MinOps: 10, MaxOps: 40, MaxNodes: 2, MaxSess: 4, Negative: 1, Reports: 10, RuleChurn: 8, Reassoc: 1, NoDupCreate: true, URRHeavy: true, TxTimeouts: true},
 	"C12": {MinOps: 8, MaxOps: 30, MaxNodes: 1, MaxSess: 1, Negative: 0, Reports: 1, RuleChurn: 14, Reassoc: 0, NoDupCreate: true, URRHeavy: true, OneSession: true},
 }
@@ -133,7 +133,7 @@ func runHist(res *vh.Result, prop string) {
 	res.Rule = rules[prop]
 	res.Assumptions = commonAssume
 	n := map[string][2]int{
-		"C04": {1500, 40000}, "C05": {1200, 30000}, "C08": {1200, 120000}, "C11": {1500, 40000}, "C12": {3000, 100000},
+		"C04": {1500, 40000}, "C05": {1200, 30000}, "C08": {3000, 120000}, "C11": {1500, 40000}, "C12": {3000, 100000},
 	}[prop]
 	total := vh.Tiered(n[0], n[1])
 	rnModel := &vh.Runner{ExtraSock: p.ExtraSock}
